@@ -145,6 +145,7 @@ func runC14(tier string, seed int64, si, sn int, rep *monitor.Report, note func(
 	def := &oracle.Cfg{Name: "default", LabelKey: c14Key, LabelValue: c14Val}
 	affFilter := controller.NewPodAffinityFilterFunc(c14Key, c14Val)
 	defFilter := controller.NewPodDefaultFilterFunc()
+	yes, no := true, false
 	owners := []struct {
 		name string
 		refs []metav1.OwnerReference
@@ -153,6 +154,11 @@ func runC14(tier string, seed int64, si, sn int, rep *monitor.Report, note func(
 		{"owner=replicaset", []metav1.OwnerReference{{Kind: "ReplicaSet", Name: "rs"}}},
 		{"owner=daemonset", []metav1.OwnerReference{{Kind: "DaemonSet", Name: "ds"}}},
 		{"owner=job+daemonset", []metav1.OwnerReference{{Kind: "Job", Name: "j"}, {Kind: "DaemonSet", Name: "ds"}}},
+		// several owners, the controller flag on one of them: a DaemonSet among the owners decides, flag or not
+		{"owner=job(controller)+daemonset", []metav1.OwnerReference{{Kind: "Job", Name: "j", Controller: &yes}, {Kind: "DaemonSet", Name: "ds"}}},
+		{"owner=daemonset+replicaset(controller)", []metav1.OwnerReference{{Kind: "DaemonSet", Name: "ds", Controller: &no}, {Kind: "ReplicaSet", Name: "rs", Controller: &yes}}},
+		{"owner=daemonset(controller)", []metav1.OwnerReference{{Kind: "DaemonSet", Name: "ds", Controller: &yes}}},
+		{"owner=replicaset(controller)", []metav1.OwnerReference{{Kind: "ReplicaSet", Name: "rs", Controller: &yes}}},
 	}
 	statics := []struct {
 		name string
